@@ -1447,7 +1447,12 @@ func (c *Conn) resumeLineLimit() {
 			return
 		}
 		pending = pending[j+1:]
-		if cmd, arg, err := parseCmd(string(line)); err == nil && cmd == "BDAT" {
+		cmd, arg, err := parseCmd(string(line))
+		if err != nil {
+			continue
+		}
+		switch cmd {
+		case "BDAT":
 			if args := strings.Fields(arg); len(args) > 0 {
 				if size, err := strconv.ParseUint(args[0], 10, 32); err == nil {
 					if uint64(len(pending)) <= size {
@@ -1456,6 +1461,12 @@ func (c *Conn) resumeLineLimit() {
 					pending = pending[size:]
 				}
 			}
+		case "DATA", "AUTH", "STARTTLS":
+			// The lines behind these may not be read as commands (a message
+			// body, the answers to challenges): a line that looks like a BDAT
+			// command there announces nothing, so nothing more is skipped.
+			r.count(pending)
+			return
 		}
 	}
 }
